@@ -161,6 +161,10 @@ def step_coq(st):
         return "(OSelect " + listlit([f"({rel.e_coq(e)}, {strlit(n)})" for e, n in st[1]]) + ")"
     if st[0] == "distinct":
         return "ODistinct"
+    if st[0] == "orderBy":     # explicit NULL placement: ascending nulls first / descending nulls last (Spark's defaults)
+        return "(OOrderBy " + listlit([f"(mkKey (ECol {strlit(c)}) {boollit(d)} {boollit(not d)})" for c, d in st[1]]) + ")"
+    if st[0] == "limit":
+        return f"(OLimit {natlit(st[1])})"
     raise ValueError(st)
 
 
@@ -177,6 +181,10 @@ def step_str(st):
         return f"where({rel.e_str(st[1])})"
     if st[0] == "select":
         return "select(" + ", ".join(n if e == ("col", n) else f"{rel.e_str(e)} as {n}" for e, n in st[1]) + ")"
+    if st[0] == "orderBy":
+        return "orderBy(" + ", ".join(f"{c}.{'desc_nulls_last' if d else 'asc_nulls_first'}()" for c, d in st[1]) + ")"
+    if st[0] == "limit":
+        return f"limit({st[1]})"
     return "distinct()"
 
 
@@ -197,6 +205,10 @@ def apply_step(df, st, F):
         return df.select(*[F.col(n) if e == ("col", n) else rel.e_sf(e, F).alias(n) for e, n in st[1]])
     if st[0] == "distinct":
         return df.distinct()
+    if st[0] == "orderBy":
+        return df.orderBy(*[F.col(c).desc_nulls_last() if d else F.col(c).asc_nulls_first() for c, d in st[1]])
+    if st[0] == "limit":
+        return df.limit(st[1])
     raise ValueError(st)
 
 
@@ -282,9 +294,20 @@ def x_block_from(sel, exp, cte_names, values_alias):
     dist = sel.args.get("distinct")
     if dist is not None and dist.args.get("on"):
         raise rel.NotExportable("distinct on")
-    if sel.args.get("order") or sel.args.get("limit"):
-        raise rel.NotExportable("order/limit (not generated by this check)")
-    blk = f"(mkBlock {listlit(ws)} {listlit(items)} {boollit(dist is not None)} [] None)"
+    ks = []
+    if sel.args.get("order"):
+        for o in sel.args["order"].expressions:
+            if not isinstance(o, exp.Ordered) or o.args.get("nulls_first") is None:
+                raise rel.NotExportable("order key without explicit direction / null placement")
+            ks.append(f"(mkKey {rel.x_expr(o.this, exp, cte_names)} {boollit(bool(o.args.get('desc')))} "
+                      f"{boollit(bool(o.args.get('nulls_first')))})")
+    lim_t = "None"
+    if sel.args.get("limit") is not None:
+        le = sel.args["limit"].expression
+        if not isinstance(le, exp.Literal) or le.is_string:
+            raise rel.NotExportable("limit is not a literal")
+        lim_t = f"(Some {natlit(int(le.this))})"
+    blk = f"(mkBlock {listlit(ws)} {listlit(items)} {boollit(dist is not None)} {listlit(ks)} {lim_t})"
     return blk, uuid, f"(XName {strlit(frm.this.name)})"
 
 
@@ -575,6 +598,15 @@ def make_cases(ctx, rnd):
                 t = ("set", call, ("in", i), ("in", j))
                 if valid(t, tabs):
                     cases.append(Case(tabs, t, post="groupcount", origin="pairs"))
+    # an operand that ends in ORDER BY (total) + LIMIT: the receiver must be frozen before the operator node is built
+    for call in CALLS:
+        for i, j in ((1, 2), (3, 1)):
+            top2 = ("ops", (("orderBy", (("a", False), ("b", True))), ("limit", 2)), ("in", i))
+            cases.append(Case(tabs, ("set", call, top2, ("in", j)), origin="ordered-operand"))
+            if not quick or call in ("exceptAll", "intersectAll"):
+                cases.append(Case(tabs, ("set", call, ("in", j), top2), origin="ordered-operand"))
+                cases.append(Case(tabs, ("set", call, ("ops", (("orderBy", (("b", True), ("a", False))),), ("in", i)), ("in", j)),
+                                  origin="ordered-operand"))
     # every ordered pair of methods nested left / right (depth 2) on fixed operands
     k_nest = 0
     for c1 in POSITIONAL:
